@@ -516,7 +516,7 @@ func kindTableBaseKind(c *core.Ctx, b *ob) {
 		b.addP(props, core.Discharged, key, c.FuncPos(fn), "no scalar codec is selected from baseKindOf")
 		return
 	}
-	bad := ""
+	bad, once := "", ""
 	for _, st := range sel {
 		reach := reachableFrom(st.Block(), nil)
 		have := map[string]bool{}
@@ -532,6 +532,41 @@ func kindTableBaseKind(c *core.Ctx, b *ob) {
 		if !(have["pointerSizeFuncOf"] && have["pointerEncodeFuncOf"] && have["pointerDecodeFuncOf"]) {
 			bad = c.InstrPos(st)
 		}
+		// baseKindOf strips every pointer level (it loops): the wrapping must repeat as well
+		strips := false
+		if bk := c.Lookup("proto.baseKindOf"); bk != nil {
+			strips = len(loopHeaders(bk)) > 0
+			for _, ci := range callsIn(bk) {
+				if f := staticCallee(ci.Common()); f != nil && c.InRepo(f) && f.Blocks != nil && len(loopHeaders(f)) > 0 {
+					strips = true
+				}
+			}
+		}
+		if strips && bad == "" {
+			for blk := range reach {
+				for _, in := range blk.Instrs {
+					ci, ok := in.(ssa.CallInstruction)
+					if !ok {
+						continue
+					}
+					if f := staticCallee(ci.Common()); f != nil && f.Name() == "pointerDecodeFuncOf" {
+						cyc := false
+						for _, s := range blk.Succs {
+							if reachableFrom(s, map[*ssa.BasicBlock]bool{st.Block(): true})[blk] {
+								cyc = true
+							}
+						}
+						if !cyc {
+							once = c.InstrPos(in)
+						}
+					}
+				}
+			}
+		}
+	}
+	if bad == "" && once != "" {
+		b.addP(props, core.Violation, key, once, "structCodecOf selects a scalar fixed-width codec from baseKindOf(f.Type), which looks through every pointer level, but wraps it in the pointer codec once, not once per level: for a field such as A **uint32 `fixed32` Unmarshal stores the decoded integer into the inner pointer (an address chosen by the input) and Marshal writes the bits of that pointer")
+		return
 	}
 	if bad != "" {
 		b.addP(props, core.Violation, key, bad, "structCodecOf selects a scalar fixed-width codec from baseKindOf(f.Type), which looks through pointers, and never wraps it in the pointer codec: for a field such as A *uint32 `fixed32` Marshal writes the bits of the pointer and Unmarshal stores the decoded integer into the pointer itself")
